@@ -5,6 +5,7 @@ package ignores
 import (
 	"encoding/json"
 	"fmt"
+	"path/filepath"
 	"sort"
 	"strings"
 	"sync/atomic"
@@ -234,12 +235,13 @@ func c14Paths() []string {
 
 // c14Case is the replayable identity of one case.
 type c14Case struct {
-	Leg      string   `json:"leg"` // "ignorer" or "scan"
-	Patterns []string `json:"patterns"`
-	VCS      bool     `json:"vcs"`
-	Path     string   `json:"path,omitempty"` // ignorer leg
-	Dir      bool     `json:"dir,omitempty"`  // ignorer leg
-	Tree     string   `json:"tree,omitempty"` // scan leg
+	Leg      string      `json:"leg"` // "ignorer" or "scan"
+	Patterns []string    `json:"patterns"`
+	VCS      bool        `json:"vcs"`
+	Path     string      `json:"path,omitempty"`    // ignorer leg
+	Dir      bool        `json:"dir,omitempty"`     // ignorer leg
+	Tree     string      `json:"tree,omitempty"`    // scan leg
+	History  *c14History `json:"history,omitempty"` // history leg (two scans with carried caches)
 }
 
 func c14Ignorer(patterns []string, vcs bool) (ignore.Ignorer, error) {
@@ -400,7 +402,15 @@ func TestC14(t *testing.T) {
 			t.Fatalf("INFRA: bad replay case: %v", err)
 		}
 		var what string
-		if c.Leg == "scan" {
+		if c.Leg == "history" && c.History != nil {
+			var flips bool
+			var err error
+			what, flips, err = c14CheckHistory(filepath.Join(t.TempDir(), "h"), c)
+			if err != nil {
+				t.Fatalf("INFRA: %v", err)
+			}
+			t.Logf("replay history %s: verdict for the name flips between the scans: %v", vr.J(c), flips)
+		} else if c.Leg == "scan" {
 			sl := <-sls.free
 			what, _, _ = c14CheckScan(sl, treeByName[c.Tree], c)
 			exp, _ := c14Expected(treeByName[c.Tree], refParseAll(c.Patterns), c.VCS)
@@ -457,8 +467,9 @@ func TestC14(t *testing.T) {
 	}
 	r.Rule(fmt.Sprintf("ignorer leg: every list of <= %d patterns over a %d-pattern alphabet (thorough: plus every list of 4 over the 10-pattern core; %d lists in all) x %d paths x {file,dir} x VCS option {off,on}, real mutagen.NewIgnorer(+ignore.IgnoreVCS).Ignore against an independent matcher; "+
 		"scan leg: %d pattern lists x %d on-disk trees x VCS {off,on} through the real core.Scan with a recording syscall hook. "+
-		"non-trivial = at least one pattern matches the path (ignorer leg) / at least one entry of the tree is ignored (scan leg); distinct by (leg, list, path, dir, vcs | tree)",
-		maxLen, len(alphabet), len(all), len(paths), len(scanPatternLists), len(c14Trees)))
+		"history leg: %d two-scan histories (scan 2 is given scan 1's ignore cache and digest cache; baseline nil or scan 1's snapshot with the changed path as re-check path) with a file<->directory change of a name under a directory-only rule (trailing slash, negated trailing slash, VCS rule), at the root and one level down. "+
+		"non-trivial = at least one pattern matches the path (ignorer leg) / at least one entry of the tree is ignored (scan leg) / the rule's verdict for the name flips between the scans (history leg); distinct by (leg, list, path, dir, vcs | tree | history)",
+		maxLen, len(alphabet), len(all), len(paths), len(scanPatternLists), len(c14Trees), len(c14HistoryCases())))
 	r.Assume(
 		"pattern alphabet: "+strings.Join(alphabet, " ")+"; core sub-alphabet: "+strings.Join(c14ScanCore, " "),
 		"reference grammar: '*' any run within a component, '?' one character, '[..]' class, a whole-component '**' = zero or more components (so 'a/**' also matches 'a' itself); '**' inside a longer component, escapes, '{a,b}' alternation and non-clean patterns ('a//b', './a') are outside the alphabet",
@@ -572,6 +583,28 @@ func TestC14(t *testing.T) {
 		// the system-call half of the "not scanned" clause vacuous.
 		t.Fatalf("INFRA: the syscall hook recorded nothing during %d scan(s)", n)
 	}
+	// History leg: two scans, the second given the first one's caches, with a
+	// file <-> directory change of a name under a directory-only rule between.
+	histories := c14HistoryCases()
+	htmp := t.TempDir()
+	vr.Parallel(len(histories), func(i int) {
+		c := histories[i]
+		what, flips, err := c14CheckHistory(filepath.Join(htmp, fmt.Sprintf("h%03d", i)), c)
+		if err != nil {
+			r.Violate("error|"+vr.J(c), "INFRA-like: "+err.Error(), c, nil)
+			return
+		}
+		r.Case("h|"+vr.J(c), flips)
+		r.Outcome(fmt.Sprintf("history verdict-flips=%v", flips))
+		if what != "" {
+			r.Violate(vr.J(c), what, c, func() bool {
+				w, _, err := c14CheckHistory(filepath.Join(htmp, fmt.Sprintf("h%03dr", i)), c)
+				return err == nil && w != ""
+			})
+		}
+	})
+	r.Set("history_cases", len(histories))
+	r.Sample(histories[0])
 	// Two hand-picked scan cases as samples (with the reference picture).
 	for _, c := range []c14Case{
 		{Leg: "scan", Patterns: []string{"b/", "!a/b"}, VCS: true, Tree: "m1"},
